@@ -377,7 +377,7 @@ func Materialise(w *Wiring, variant int) (data []byte, ok bool) {
 		}
 		addHelpers()
 
-	case "decode", "fields", "parents", "objwalk":
+	case "decode", "fields", "parents", "objwalk", "navnode":
 		h := materialiseExt(w, l, f, alt)
 		if h == nil {
 			return nil, false
